@@ -152,7 +152,7 @@ impl Property for C08 {
     fn rule(&self) -> &'static str {
         "case = bucket list (sorted distinct f64 of every class, then perturbed: swap / duplicate / NaN / +Inf trailing or anywhere / \
          -Inf first / signed-zero pair / empty / wide: 20-129 further bounds on an arithmetic or geometric ladder) x delivery path (Histogram, HistogramVec child, LocalHistogram) x 0-40 operations \
-         (observe of bounds, bounds +-1ulp, +-0, subnormals, +-inf, NaN, arbitrary bit patterns; local observe/flush/clear; collect). \
+         (observe of bounds, bounds +-1ulp, +-0, subnormals, +-inf, NaN, arbitrary bit patterns; local observe/flush/clear/clone+drop; collect). \
          Oracle: acceptance predicate of the statement; naive count(v <= b), n, in-order fold reference. Non-trivial: accepted list \
          with >=2 bounds and an observation equal to a bound / non-finite / above every bound, or a rejected list whose defect is not \
          a descending finite pair. Distinct = hash of decoded choices."
@@ -249,6 +249,26 @@ impl Property for C08 {
                     l.clear();
                     pending.clear();
                     log.push("clear".into());
+                }
+                (8, Some(l)) => {
+                    // a clone of a local histogram starts empty; dropping it flushes what it holds, i.e. nothing
+                    let c = l.clone();
+                    ensure!(
+                        c.get_sample_count() == 0 && c.get_sample_sum() == 0.0,
+                        "local-clone-not-empty",
+                        "clone of a LocalHistogram with {} pending observations reports count={} sum={}",
+                        pending.len(),
+                        c.get_sample_count(),
+                        show_f64(c.get_sample_sum())
+                    );
+                    drop(c);
+                    if !pending.is_empty() {
+                        rep.class("local-cloned-while-observations-pending");
+                    }
+                    log.push("clone+drop".into());
+                    if let Err(v) = check(&hist, &model, path, src.chance(128)) {
+                        return v;
+                    }
                 }
                 _ => {
                     log.push("collect".into());
